@@ -873,7 +873,10 @@ func (eval Evaluator) mulRelin(op0 *rlwe.Ciphertext, op1 *rlwe.Element[ring.Poly
 
 		var c0 ring.Poly
 		var c1 []ring.Poly
-		if op0.Degree() == 0 {
+		// The operand of degree zero is switched to the Montgomery domain in the buffer. If both are of
+		// degree zero it is op1, which can be a plaintext encoded in this very buffer (it is then switched
+		// in place, instead of being overwritten by op0 before it is read).
+		if op0.Degree() == 0 && op1.Degree() != 0 {
 			c0 = eval.buffQ[0]
 			ringQ.MForm(op0.Value[0], c0)
 			c1 = op1.El().Value
